@@ -138,8 +138,17 @@ end PV.SftpFile
 namespace PV.SftpFile
 open PV PV.BufFile
 
+theorem dropReadAhead_nil {σ : Type} (o : Ops σ) (f : BF σ) (d : Bytes) (h : f.rbuf = [] ∨ d = []) :
+    dropReadAhead o f d = f := by
+  rcases h with h | h <;> simp [dropReadAhead, h]
+
+theorem flush_nil {σ : Type} (o : Ops σ) (f : BF σ) (h : f.wbuf = []) : flush o f = ({ f with wbuf := [] }, .ok ()) := by
+  unfold flush writeAll
+  rw [h, dropReadAhead_nil o f [] (Or.inr rfl)]
+  simp [writeAllLoop]
+
 theorem writeAll_sftp_noapp (maxReq : Nat) (hm : 1 ≤ maxReq) (f : BF Srv) (data : Bytes)
-    (h0 : 0 ≤ f.realpos) (hc : Coherent f.s) (ha : f.app = false) (hsa : f.s.append = false) :
+    (h0 : 0 ≤ f.realpos) (hc : Coherent f.s) (ha : f.app = false) (hsa : f.s.append = false) (hrb : f.rbuf = []) :
     (writeAll (sftpOps maxReq) f data).2 = .ok () ∧
     (writeAll (sftpOps maxReq) f data).1.s.content = overlay f.s.content f.realpos.toNat data ∧
     (writeAll (sftpOps maxReq) f data).1.pos = f.pos + data.length ∧
@@ -147,11 +156,13 @@ theorem writeAll_sftp_noapp (maxReq : Nat) (hm : 1 ≤ maxReq) (f : BF Srv) (dat
     (writeAll (sftpOps maxReq) f data).1.size = f.size ∧
     Coherent (writeAll (sftpOps maxReq) f data).1.s ∧
     srvSame (writeAll (sftpOps maxReq) f data).1.s f.s ∧
-    cliSame (writeAll (sftpOps maxReq) f data).1 f :=
-  writeAllLoop_sftp_noapp maxReq hm (data.length + 1) f data (by omega) h0 hc ha hsa
+    cliSame (writeAll (sftpOps maxReq) f data).1 f := by
+  unfold writeAll
+  rw [dropReadAhead_nil _ f data (Or.inl hrb)]
+  exact writeAllLoop_sftp_noapp maxReq hm (data.length + 1) f data (by omega) h0 hc ha hsa
 
 theorem flush_sftp_noapp (maxReq : Nat) (hm : 1 ≤ maxReq) (f : BF Srv)
-    (h0 : 0 ≤ f.realpos) (hc : Coherent f.s) (ha : f.app = false) (hsa : f.s.append = false) :
+    (h0 : 0 ≤ f.realpos) (hc : Coherent f.s) (ha : f.app = false) (hsa : f.s.append = false) (hrb : f.rbuf = []) :
     (flush (sftpOps maxReq) f).2 = .ok () ∧
     (flush (sftpOps maxReq) f).1.s.content = overlay f.s.content f.realpos.toNat f.wbuf ∧
     (flush (sftpOps maxReq) f).1.pos = f.pos + f.wbuf.length ∧
@@ -162,7 +173,7 @@ theorem flush_sftp_noapp (maxReq : Nat) (hm : 1 ≤ maxReq) (f : BF Srv)
     (flush (sftpOps maxReq) f).1.wbuf = [] ∧
     cliSame (flush (sftpOps maxReq) f).1 { f with wbuf := [] } := by
   unfold flush
-  obtain ⟨h1, h2, h3, h4, h5, h6, h7, h8⟩ := writeAll_sftp_noapp maxReq hm f f.wbuf h0 hc ha hsa
+  obtain ⟨h1, h2, h3, h4, h5, h6, h7, h8⟩ := writeAll_sftp_noapp maxReq hm f f.wbuf h0 hc ha hsa hrb
   rcases hres : writeAll (sftpOps maxReq) f f.wbuf with ⟨f1, r1⟩
   rw [hres] at h1 h2 h3 h4 h5 h6 h7 h8
   simp only at h1 h2 h3 h4 h5 h6 h7 h8
